@@ -4,7 +4,9 @@ package c17
 // signature by an allowed asymmetric algorithm that fits the mandated key and verifies over the received bytes?
 
 import (
+	"crypto"
 	"crypto/ecdsa"
+	"crypto/ed25519"
 	"crypto/rsa"
 	"encoding/base64"
 	"encoding/json"
@@ -40,7 +42,10 @@ func algForKey(pub *ecdsa.PublicKey) string {
 	return ""
 }
 
-func strictVerify(s *seed, tok string) error {
+func strictVerify(s *seed, tok string) error { return strictVerifyKey(s, s.pub, tok) }
+
+// strictVerifyKey: the same decision with an explicit mandated key (own-key tokens of another key holder).
+func strictVerifyKey(s *seed, mandated crypto.PublicKey, tok string) error {
 	parts := strings.Split(tok, ".")
 	if len(parts) != 3 {
 		return fmt.Errorf("%d segments", len(parts))
@@ -71,15 +76,20 @@ func strictVerify(s *seed, tok string) error {
 	if j, ok := hdr["jwk"]; ok {
 		var m map[string]any
 		if json.Unmarshal(j, &m) == nil {
-			for _, private := range []string{"d", "p", "q", "dp", "dq", "qi", "k"} {
-				if _, has := m[private]; has {
-					return errors.New("jwk header carries private key material")
-				}
+			if jwkIsPrivate(m) {
+				return errors.New("jwk header carries private key material")
 			}
 		}
 	}
 	input := s.input(parts[0], parts[1])
-	switch pub := s.pub.(type) {
+	switch pub := mandated.(type) {
+	case ed25519.PublicKey:
+		if alg != "EdDSA" {
+			return fmt.Errorf("alg %q does not fit an Ed25519 key", alg)
+		}
+		if len(sig) != ed25519.SignatureSize || !ed25519.Verify(pub, input, sig) {
+			return errors.New("signature does not verify with the mandated key over the received bytes")
+		}
 	case *ecdsa.PublicKey:
 		if alg != algForKey(pub) {
 			return fmt.Errorf("alg %q does not fit a %s key", alg, pub.Curve.Params().Name)
@@ -111,7 +121,7 @@ func strictVerify(s *seed, tok string) error {
 			return fmt.Errorf("alg %q does not fit an RSA key", alg)
 		}
 	default:
-		return fmt.Errorf("harness cannot verify with %T", s.pub)
+		return fmt.Errorf("harness cannot verify with %T", mandated)
 	}
 	return nil
 }
